@@ -537,6 +537,42 @@ static CMR_ERROR op_camion(CMR* cmr, TOKS* t, OUT* o)
   return e;
 }
 
+/* camionx <wantsub> M : test, sign, test(sign), sign(sign) in one op
+ *   -> t=<yes|no> <S|-> w=<yes|no> M(signed) t2=<yes|no> idem=<0|1> */
+static CMR_ERROR op_camionx(CMR* cmr, TOKS* t, OUT* o)
+{
+  int wantsub = (int) tk_int(t);
+  CMR_CHRMAT* A = NULL;
+  HCALL( in_chrmat(cmr, t, &A) );
+  if (t->bad) { CMRchrmatFree(cmr, &A); return CMR_OKAY; }
+  CMR_CHRMAT* B = NULL; CMR_CHRMAT* C = NULL;
+  bool is = false, was = false, is2 = false, was2 = false; CMR_SUBMAT* sub = NULL; CMR_SUBMAT* sub2 = NULL;
+  uint64_t s0 = sum_chrmat(A);
+  CMR_ERROR e = CMRcamionTestSigns(cmr, A, &is, wantsub ? &sub : NULL, NULL, h_time_limit);
+  if (sum_chrmat(A) != s0) h_input_modified = 1;
+  if (!e) e = CMRchrmatCopy(cmr, A, &B);
+  if (!e) e = CMRcamionComputeSigns(cmr, B, &was, wantsub ? &sub2 : NULL, NULL, h_time_limit);
+  if (!e) e = CMRcamionTestSigns(cmr, B, &is2, NULL, NULL, h_time_limit);
+  if (!e) e = CMRchrmatCopy(cmr, B, &C);
+  if (!e) e = CMRcamionComputeSigns(cmr, C, &was2, NULL, NULL, h_time_limit);
+  if (!e)
+  {
+    out_str(o, is ? " t=yes" : " t=no");
+    out_submat(o, sub);
+    out_str(o, was ? " w=yes" : " w=no");
+    out_submat(o, sub2);
+    out_chrmat(o, B);
+    out_str(o, is2 ? " t2=yes" : " t2=no");
+    out_fmt(o, " idem=%d", CMRchrmatCheckEqual(B, C) ? 1 : 0);
+  }
+  if (sub) CMRsubmatFree(cmr, &sub);
+  if (sub2) CMRsubmatFree(cmr, &sub2);
+  if (B) CMRchrmatFree(cmr, &B);
+  if (C) CMRchrmatFree(cmr, &C);
+  CMRchrmatFree(cmr, &A);
+  return e;
+}
+
 /* ---------- balanced:  balanced <alg 0|1|2> <sp 0|1> <preset 0|1> <wantsub> M(int entries via char) ---------- */
 
 static CMR_ERROR op_balanced(CMR* cmr, TOKS* t, OUT* o)
@@ -636,6 +672,7 @@ OPDEF ops_basic[] = {
   { "printsub", op_printsub },
   { "sp", op_sp },
   { "camion", op_camion },
+  { "camionx", op_camionx },
   { "balanced", op_balanced },
   { "equimod", op_equimod },
   { "stack", op_stack },
